@@ -4980,9 +4980,11 @@ class Entity(object, metaclass=EntityMeta):
                     continue
 
         if unpickling:
-            new_vals = avdict
             new_dbvals = {attr: attr.converters[0].val2dbval(val, obj) if not attr.reverse else val
                                 for attr, val in avdict.items()}
+            # back through the converter, as on a load: Json and array values become tracked values of this object again
+            new_vals = {attr: attr.converters[0].dbval2val(new_dbvals[attr], obj) if not attr.reverse else val
+                              for attr, val in avdict.items()}
         else:
             new_dbvals = avdict
             new_vals = {attr: attr.converters[0].dbval2val(dbval, obj) if not attr.reverse else dbval
